@@ -21,7 +21,8 @@ EXPLANATION = ("Theorems: one node per predication in order with its attributes;
                "handle constraint to the first representative with H, direct label with HEQ, or MOD/EQ between a "
                "later and the first representative); mrs.from_dmrs yields one predication per node in order "
                "with predicate, constant, the label of the node's scope class and its intrinsic variable, "
-               "only qeq constraints and a top handle qeq the top node's scope. The round-trip isomorphism "
+               "only qeq constraints and a top handle qeq the top node's scope; both round trips keep "
+               "predicates and constants in order. The round-trip isomorphism "
                "and the fixpoint of re-conversion are decided by the oracle (is_isomorphic on the real "
                "outputs), not proved.")
 ASSUMPTIONS = [
